@@ -38,6 +38,17 @@ class Expected:
         return "Expected({}, {})".format(self.events, self.outcome)
 
 
+def unique_by_id(items: List[Dict[str, Any]]) -> List[Dict[str, Any]]:
+    """First occurrences, in order (a contract inherited along two paths is one contract)."""
+    seen = set()
+    out = []
+    for it in items:
+        if it["id"] not in seen:
+            seen.add(it["id"])
+            out.append(it)
+    return out
+
+
 class Model:
     def __init__(self, prog: Dict[str, Any]) -> None:
         self.prog = prog
@@ -130,7 +141,16 @@ class Model:
             return own_groups
         if accept_all:
             return []
-        return groups + own_groups
+        # the same group reached along two inheritance paths (a diamond) is one group: every condition function is
+        # called at most once per check
+        out = []  # type: List[List[Dict[str, Any]]]
+        seen = set()
+        for g in groups + own_groups:
+            sig = tuple(c["id"] for c in g)
+            if sig not in seen:
+                seen.add(sig)
+                out.append(g)
+        return out
 
     def eff_post(self, cls: str, key: str) -> List[Dict[str, Any]]:
         m = self.defines(cls, key)
@@ -143,7 +163,7 @@ class Model:
             o = self.owner(b, key)
             if o is not None:
                 res.extend(self.eff_post(o, key))
-        return res + own
+        return unique_by_id(res + own)
 
     def eff_snaps(self, cls: str, key: str) -> List[Dict[str, Any]]:
         m = self.defines(cls, key)
@@ -156,13 +176,13 @@ class Model:
             o = self.owner(b, key)
             if o is not None:
                 res.extend(self.eff_snaps(o, key))
-        return res + own
+        return unique_by_id(res + own)
 
     def eff_invs(self, cls: str) -> List[Dict[str, Any]]:
         res = []  # type: List[Dict[str, Any]]
         for b in self.bases(cls):
             res.extend(self.eff_invs(b))
-        return res + list(self.classes[cls].get("invs", []))
+        return unique_by_id(res + list(self.classes[cls].get("invs", [])))
 
     def invs_on(self, cls: str, event: str) -> List[Dict[str, Any]]:
         accepted = ("CALL", "ALL", "DEFAULT") if event == "CALL" else ("SETATTR", "ALL")
@@ -204,15 +224,9 @@ class Model:
                     break
                 names = [s.get("name") or (s["args"][0] if len(s["args"]) == 1 else None) for s in self.eff_snaps(cls, key)]
                 if len(set(names)) != len(names):
-                    own_names = [s.get("name") or s["args"][0] for s in decos_of(m, "snap")]
-                    inherited = names[: len(names) - len(own_names)]
-                    # a clash between an own name and an inherited one, or between two different inherited
-                    # declarations, must be rejected; the same declaration reached along two diamond paths is a
-                    # silent zone
-                    if len(set(inherited)) == len(inherited) or len(set(own_names)) != len(own_names):
-                        res = "ValueError"
-                    else:
-                        res = "ambiguous"
+                    # two DIFFERENT declarations with one name (the same declaration reached along two diamond paths
+                    # is one snapshot, see eff_snaps)
+                    res = "ValueError"
                     break
         self._rejected[cls] = res
         return res
